@@ -186,11 +186,11 @@ pub fn families() -> Vec<Box<dyn Family>> {
             true,
             64,
             |cfg| {
-                let n = gen::all_seqs(3, if cfg.tiny { 2 } else { cfg.tier.pick(4, 5) }).len() as u64;
+                let n = gen::all_seqs(if cfg.tiny { 2 } else { 3 }, if cfg.tiny { 2 } else { cfg.tier.pick(4, 5) }).len() as u64;
                 n * n
             },
             |idx, cfg, out| {
-                let seqs = gen::all_seqs(3, if cfg.tiny { 2 } else { cfg.tier.pick(4, 5) });
+                let seqs = gen::all_seqs(if cfg.tiny { 2 } else { 3 }, if cfg.tiny { 2 } else { cfg.tier.pick(4, 5) });
                 let (a, b) = gen::pair_of(seqs, idx);
                 let a: Vec<u32> = a.iter().map(|x| *x as u32).collect();
                 let b: Vec<u32> = b.iter().map(|x| *x as u32).collect();
